@@ -23,6 +23,19 @@
 // case line:  <ci> C <row id> <seed> <sa> <sb> <sc> <idxmode a> <idxmode b> <idxmode c> <padmask> <valuemode> <alias> <aj>
 //                  [<level none|sep|base|word> <family> <dl> <ixo 0|1>]
 //             <ci> P <parcpy|parSetZero> <size> <nthreads> <pad> <seed> [<env 0..3>]
+//
+// HUGE strides / index-list entries.  The stride fields take any 64-bit value; an index-list mode >= 100 builds a list from
+// the unit h given in the stride field of that operand (gen_idx_huge: h, 2h, ... in order, permuted, one far entry, all
+// entries near h, descending, repeated / offset multiples).  An array operand whose extent reaches WIDE elements lives in a
+// SPARSE arena: the whole span (up to 7 * (2^32+3) elements, plus 2^31 elements below the base pointer) is reserved PROT_NONE +
+// MAP_NORESERVE and only the pages that hold designated cells are made accessible - still end-aligned against an inaccessible
+// page - plus DECOY pages at the positions a narrowed computation of lane k's position t would hit: (int32)t, (uint32)t, the
+// same for the byte offset 8t, and k * (int32)stride, k * (uint32)stride (those that lie inside the reservation).  Every
+// accessible cell that is not designated holds run-specific garbage (result arenas: the complementary pre-fills), is part of
+// the snapshots and of the changed-cell scan: a lane fetched from / stored to a narrowed position gives a wrong value (decoy) or
+// a fault (no decoy there), never silently the right one.  Such a call is logged with "wide": true and every stride, index
+// entry, position, extent and changed position as a 64-bit limb word (saw iaw aaw eaw ... chgw): TLC integers are 32 bit.
+// If the address range cannot be reserved the case is logged as a "skip" event (not judged).
 #include "goldilocks_base_field.hpp"
 #include "vh.hpp"
 #include <fcntl.h>
@@ -37,25 +50,104 @@ enum Op { OP_COPY, OP_ADD, OP_SUB, OP_MUL };
 static const char *OPN[] = {"copy", "add", "sub", "mul"};
 
 // an array in front of an inaccessible page: ext designated-range elements (+ pad undesignated ones, which also
-// de-align the start), every byte between the leading guard page and the array pattern-filled
+// de-align the start), every byte between the leading guard page and the array pattern-filled.
+// dense: all n cells accessible (vh::galloc).  sparse: see the header comment; acc lists the accessible cells as ranges
+// [lo, hi) relative to the base pointer p (lo may be negative: decoy cells below the base).
+static const uint64_t WIDE = 1ULL << 24;                 // extents (elements) from which an arena is sparse
+static const int64_t LOWCELLS = 1LL << 31;               // cells reserved below the base pointer of a sparse arena
+struct Skip
+{
+    const char *why;
+};
 struct Arena
 {
     vh::GBuf g;
-    bool live = false;
+    bool live = false, sparse = false;
     uint8_t pat = 0;
+    uint64_t *p = nullptr;
+    uint64_t n = 0;
+    uint8_t *mbase = nullptr;
+    size_t mlen = 0;
+    std::vector<std::pair<int64_t, int64_t>> acc;
     std::vector<uint64_t> snap;
-    void make(size_t n, uint8_t pattern)
+    void make(size_t n_, uint8_t pattern)
     {
-        g = vh::galloc(n, 0);
+        g = vh::galloc(n_, 0);
         live = true;
+        sparse = false;
         pat = pattern;
         memset(g.base + 4096, pat, g.slack);
+        p = g.p;
+        n = n_;
+        acc.assign(1, {0, (int64_t)n_});
     }
-    void snapshot() { snap.assign(g.p, g.p + g.n); }
-    bool same() const { return !live || (snap.size() == g.n && (g.n == 0 || memcmp(snap.data(), g.p, g.n * 8) == 0)); }
-    bool slack_ok() const
+    // cells: positions relative to p that must be accessible (designated cells and decoys); positions outside
+    // [-LOWCELLS, n) are ignored
+    void make_sparse(uint64_t n_, const std::vector<int64_t> &cells, uint8_t pattern)
+    {
+        const uint64_t ps = 4096;
+        uint64_t bytes = n_ * 8;
+        uint64_t span = ((bytes + ps - 1) / ps) * ps;
+        mlen = (size_t)(ps + (uint64_t)LOWCELLS * 8 + 2 * ps + span + ps);
+        void *m = mmap(nullptr, mlen, PROT_NONE, MAP_PRIVATE | MAP_ANONYMOUS | MAP_NORESERVE, -1, 0);
+        if (m == MAP_FAILED)
+            throw Skip{"cannot reserve the address range of a huge stride / index list"};
+        mbase = (uint8_t *)m;
+        live = true;
+        sparse = true;
+        pat = pattern;
+        n = n_;
+        uint8_t *end = mbase + mlen - ps;
+        p = (uint64_t *)(end - bytes);
+        std::vector<intptr_t> pages;
+        for (int64_t j : cells)
+            if (j >= -LOWCELLS && j < (int64_t)n_)
+                pages.push_back(((intptr_t)(p + j)) & ~(intptr_t)(ps - 1));
+        std::sort(pages.begin(), pages.end());
+        pages.erase(std::unique(pages.begin(), pages.end()), pages.end());
+        acc.clear();
+        for (intptr_t pg : pages)
+        {
+            if (mprotect((void *)pg, ps, PROT_READ | PROT_WRITE) != 0)
+            {
+                release();
+                throw Skip{"cannot commit a page of a sparse arena"};
+            }
+            int64_t lo = (pg - (intptr_t)p) / 8;
+            int64_t hi = std::min<int64_t>((int64_t)n_, lo + (int64_t)(ps / 8));
+            acc.push_back({lo, hi});
+        }
+    }
+    template <class F>
+    void each(F f)
+    {
+        for (auto &r : acc)
+            for (int64_t j = r.first; j < r.second; j++)
+                f(j, p[j]);
+    }
+    void snapshot()
+    {
+        snap.clear();
+        each([&](int64_t, uint64_t &c) { snap.push_back(c); });
+    }
+    bool same()
     {
         if (!live)
+            return true;
+        size_t i = 0;
+        bool ok = true;
+        each([&](int64_t, uint64_t &c) { ok = ok && i < snap.size() && snap[i] == c; i++; });
+        return ok && i == snap.size();
+    }
+    // positions whose content differs from the snapshot
+    void changed(std::vector<int64_t> &out)
+    {
+        size_t i = 0;
+        each([&](int64_t j, uint64_t &c) { if (c != snap[i]) out.push_back(j); i++; });
+    }
+    bool slack_ok() const
+    {
+        if (!live || sparse) // sparse: the cells in front of the array that are accessible are ordinary snapshot cells
             return true;
         const uint8_t *s = g.base + 4096;
         for (size_t i = 0; i < g.slack; i++)
@@ -65,7 +157,9 @@ struct Arena
     }
     void release()
     {
-        if (live)
+        if (live && sparse)
+            munmap(mbase, mlen);
+        else if (live)
             vh::gfree(g);
         live = false;
     }
@@ -111,11 +205,38 @@ struct Operand
             m = std::max(m, addr(k));
         return m + 1;
     }
-    E *ptr() { return same ? same->ptr() : (base ? base->ptr() : (E *)mem.g.p); }
+    bool sparse() const { return (kind == K_STRIDE || kind == K_INDEX) && extent() >= WIDE; }
+    // the array of this operand: dense, or sparse with decoy pages where a narrowed position computation would land
+    void alloc(uint8_t pat)
+    {
+        size_t n = std::max(extent(), minext) + pad;
+        if (!sparse())
+        {
+            mem.make(n, pat);
+            return;
+        }
+        std::vector<int64_t> cells;
+        for (int k = 0; k < L; k++)
+        {
+            uint64_t t = addr(k);
+            cells.push_back((int64_t)t);
+            cells.push_back((int64_t)(int32_t)(uint32_t)t);
+            cells.push_back((int64_t)(uint32_t)t);
+            cells.push_back((int64_t)(int32_t)(uint32_t)(t * 8) / 8);
+            cells.push_back((int64_t)(uint32_t)(t * 8) / 8);
+            if (kind == K_STRIDE)
+            {
+                cells.push_back((int64_t)k * (int64_t)(int32_t)(uint32_t)stride);
+                cells.push_back((int64_t)k * (int64_t)(uint32_t)stride);
+            }
+        }
+        mem.make_sparse(n, cells, pat);
+    }
+    E *ptr() { return same ? same->ptr() : (base ? base->ptr() : (E *)mem.p); }
     uint64_t *idxp() { return same ? same->idxp() : (ixo ? ixo->idxp() : ib.g.p); }
     uint64_t *cells() { return (uint64_t *)ptr(); }
     // the scalar argument: an lvalue (copied by a by-value parameter, bound by a reference parameter)
-    const E &sref() const { return sloc ? *sloc : (kind == K_SCALARREF ? *(const E *)mem.g.p : own); }
+    const E &sref() const { return sloc ? *sloc : (kind == K_SCALARREF ? *(const E *)mem.p : own); }
     __m256i &reg256() { return same ? same->r256 : r256; }
 #ifdef __AVX512__
     __m512i &reg512() { return same ? same->r512 : r512; }
@@ -228,10 +349,43 @@ static std::vector<uint64_t> gen_idx(vh::Rng &r, int mode, int L, bool out)
     return v;
 }
 
+// index lists with HUGE entries, built from the unit h (2^29+1 ... 2^32+3); outputs always pairwise distinct
+static std::vector<uint64_t> gen_idx_huge(vh::Rng &r, int pat, int L, bool out, uint64_t h)
+{
+    std::vector<uint64_t> v(L), m = distinct(r, L, L); // m: a permutation of the lanes
+    switch (pat % 6)
+    {
+    case 0: // looks like a uniform stride
+        for (int k = 0; k < L; k++) v[k] = (uint64_t)k * h;
+        break;
+    case 1: // the same cells, permuted
+        for (int k = 0; k < L; k++) v[k] = m[k] * h;
+        break;
+    case 2: // one far entry, the others near the base
+    {
+        std::vector<uint64_t> sm = distinct(r, L, 40);
+        v = sm;
+        v[r.below(L)] = h * (1 + r.below(L - 1));
+        break;
+    }
+    case 3: // every entry far, all near h
+        for (int k = 0; k < L; k++) v[k] = h + 3 * m[k] + (k == 0 ? 0 : 1);
+        break;
+    case 4: // descending
+        for (int k = 0; k < L; k++) v[k] = (uint64_t)(L - 1 - k) * h + (uint64_t)k;
+        break;
+    default: // inputs: a few far cells, repeated; outputs: permuted multiples with small offsets
+        if (out) for (int k = 0; k < L; k++) v[k] = m[k] * h + 5 * (uint64_t)k;
+        else { uint64_t pool[3] = {0, h, (uint64_t)(L - 1) * h + 2}; for (int k = 0; k < L; k++) v[k] = pool[r.below(3)]; v[r.below(L)] = pool[2]; }
+        break;
+    }
+    return v;
+}
+
 struct RunOut
 {
     uint64_t a[8], b[8], r[8];
-    std::vector<long long> chg;
+    std::vector<int64_t> chg;
     bool in_same, slack_ok;
 };
 
@@ -319,9 +473,9 @@ static void setup_input(Operand &X, const uint64_t *val, vh::Rng &garb, uint8_t 
             C.setreg(val);
         else
             for (int k = 0; k < L; k++)
-                C.mem.g.p[C.addr(k)] = val[k];
+                C.mem.p[C.addr(k)] = val[k];
         for (int k = 0; k < L; k++)
-            seen[k] = X.v[k] = C.kind == K_REG ? val[k] : C.mem.g.p[C.addr(k)];
+            seen[k] = X.v[k] = C.kind == K_REG ? val[k] : C.mem.p[C.addr(k)];
         return;
     }
     if (X.base)
@@ -357,13 +511,12 @@ static void setup_input(Operand &X, const uint64_t *val, vh::Rng &garb, uint8_t 
     }
     if (X.inmem() && X.kind != K_SCALARREF)
     {
-        X.mem.make(std::max(X.extent(), X.minext) + X.pad, pat);
-        for (size_t i = 0; i < X.mem.g.n; i++)
-            X.mem.g.p[i] = garb.next();
+        X.alloc(pat);
+        X.mem.each([&](int64_t, uint64_t &c) { c = garb.next(); });
         for (int k = 0; k < L; k++)
-            X.mem.g.p[X.addr(k)] = val[k];
+            X.mem.p[X.addr(k)] = val[k];
         for (int k = 0; k < L; k++)
-            seen[k] = X.v[k] = X.mem.g.p[X.addr(k)]; // what the call will find in the designated cells
+            seen[k] = X.v[k] = X.mem.p[X.addr(k)]; // what the call will find in the designated cells
         X.mem.snapshot();
     }
     else if (X.kind == K_REG)
@@ -397,7 +550,7 @@ static void setup_scalar(Operand &S, Operand &other, Operand &C, Alias al, int a
     S.sloc = nullptr;
     if (al == AL_SC)
     {
-        uint64_t *cell = C.mem.g.p + C.addr(aj);
+        uint64_t *cell = C.mem.p + C.addr(aj);
         *cell = val;
         S.sloc = (const E *)cell;
     }
@@ -406,9 +559,9 @@ static void setup_scalar(Operand &S, Operand &other, Operand &C, Alias al, int a
     else if (S.kind == K_SCALARREF)
     {
         S.mem.make(1 + S.pad, pat);
-        for (size_t i = 0; i < S.mem.g.n; i++)
-            S.mem.g.p[i] = garb.next();
-        S.mem.g.p[0] = val;
+        for (size_t i = 0; i < S.mem.n; i++)
+            S.mem.p[i] = garb.next();
+        S.mem.p[0] = val;
         S.mem.snapshot();
     }
     else
@@ -425,13 +578,12 @@ static void one_run(const Row &row, Ctx &x, const uint64_t *va, const uint64_t *
     // result operand first: in the alias modes operand values are placed inside it
     if (C.inmem())
     {
-        C.mem.make(std::max(C.extent(), C.minext) + C.pad, pat ^ 0x22);
+        C.alloc(pat ^ 0x22);
         vh::Rng pre(seed ^ 0x5151515151515151ULL); // same stream in both runs; run 1 stores the complement
-        for (size_t i = 0; i < C.mem.g.n; i++)
-        {
+        C.mem.each([&](int64_t, uint64_t &c) {
             uint64_t h = pre.next();
-            C.mem.g.p[i] = run ? ~h : h;
-        }
+            c = run ? ~h : h;
+        });
     }
     {
         uint64_t g8[8];
@@ -470,12 +622,10 @@ static void one_run(const Row &row, Ctx &x, const uint64_t *va, const uint64_t *
         C.getreg(o.r);
     else
         for (int k = 0; k < C.L; k++)
-            o.r[k] = C.mem.g.p[C.addr(k)];
+            o.r[k] = C.mem.p[C.addr(k)];
     o.chg.clear();
     if (C.inmem())
-        for (size_t i = 0; i < C.mem.g.n; i++)
-            if (C.mem.g.p[i] != C.mem.snap[i])
-                o.chg.push_back((long long)i);
+        C.mem.changed(o.chg);
     o.in_same = x.A.mem.same() && x.B.mem.same() && x.A.ib.same() && x.B.ib.same() && C.ib.same();
     o.slack_ok = x.A.mem.slack_ok() && x.B.mem.slack_ok() && C.mem.slack_ok() && x.A.ib.slack_ok() && x.B.ib.slack_ok() && C.ib.slack_ok();
     Operand *all[3] = {&x.A, &x.B, &x.C};
@@ -534,7 +684,7 @@ static void do_call(vh::Out &o, const std::vector<std::string> &t)
         X.L = L;
         X.stride = X.kind == K_STRIDE ? st[i] : 0;
         if (X.kind == K_INDEX)
-            X.idx = gen_idx(rs, im[i], L, i == 2);
+            X.idx = im[i] >= 100 ? gen_idx_huge(rs, im[i] - 100, L, i == 2, st[i]) : gen_idx(rs, im[i], L, i == 2);
         X.pad = (!row.aligned && X.inmem() && ((padmask >> i) & 1)) ? 1 : 0;
     }
     aj = aj % L;
@@ -666,6 +816,14 @@ static void do_call(vh::Out &o, const std::vector<std::string> &t)
     }
     else if (ixo)
         misfit("(ixo)");
+    // a huge stride / index list anywhere: sparse arenas, positions logged as limb words; only separate objects or the
+    // result in place (one address map)
+    const bool wide = x.A.sparse() || x.B.sparse() || x.C.sparse();
+    if (wide && (dlv != DL_NONE || al == AL_SC || al == AL_SA))
+        misfit("(huge strides: alias modes none / ca / cb only, no designation family)");
+    for (Operand *X : ops)
+        if (X->inmem() && X->kind != K_SCALARREF && X->extent() > (1ULL << 40))
+            misfit("(extent beyond 2^40 elements)");
     uint64_t va[8], vb[8];
     for (int k = 0; k < 8; k++)
     {
@@ -685,10 +843,28 @@ static void do_call(vh::Out &o, const std::vector<std::string> &t)
         std::copy(rel.begin(), rel.end(), vs);
     }
     RunOut r0, r1;
-    one_run(row, x, va, vb, seed, 0, al, aj, r0);
-    one_run(row, x, va, vb, seed, 1, al, aj, r1);
+    try
+    {
+        one_run(row, x, va, vb, seed, 0, al, aj, r0);
+        one_run(row, x, va, vb, seed, 1, al, aj, r1);
+    }
+    catch (Skip &sk)
+    {
+        // the address range could not be reserved on this machine: recorded, not judged
+        for (Operand *X : ops)
+        {
+            X->mem.release();
+            X->ib.release();
+        }
+        o.begin("skip");
+        o.num("ci", ci);
+        o.str("id", row.id);
+        o.str("why", sk.why);
+        o.end();
+        return;
+    }
     bool same = memcmp(r0.r, r1.r, 8 * L) == 0 && memcmp(r0.a, r1.a, 8 * L) == 0 && memcmp(r0.b, r1.b, 8 * L) == 0;
-    std::vector<long long> chg(r0.chg);
+    std::vector<long long> chg(r0.chg.begin(), r0.chg.end());
     for (long long i : r1.chg)
         if (std::find(chg.begin(), chg.end(), i) == chg.end())
             chg.push_back(i);
@@ -707,22 +883,43 @@ static void do_call(vh::Out &o, const std::vector<std::string> &t)
     o.num("esh", dlv == DL_BASE ? (long long)std::max(x.A.extent(), x.B.extent()) : 0);
     long long pads[3] = {(long long)x.A.pad, (long long)x.B.pad, (long long)x.C.pad};
     o.intarr("pad", pads, 3);
+    o.boolean("wide", wide);
     const char *sk[3] = {"sa", "sb", "sc"}, *ik[3] = {"ia", "ib", "ic"}, *ak[3] = {"aa", "ab", "ac"}, *ek[3] = {"ea", "eb", "ec"};
+    const char *skw[3] = {"saw", "sbw", "scw"}, *ikw[3] = {"iaw", "ibw", "icw"}, *akw[3] = {"aaw", "abw", "acw"}, *ekw[3] = {"eaw", "ebw", "ecw"};
     for (int i = 0; i < 3; i++)
     {
         Operand &X = *ops[i];
-        o.num(sk[i], (long long)X.stride);
-        intarr(o, ik[i], X.idx);
         std::vector<uint64_t> ad;
         for (int k = 0; k < L; k++)
             ad.push_back(X.addr(k));
+        if (wide)
+        {
+            // 64-bit limb words: strides, index-list entries, designated positions, extent
+            o.w64(skw[i], X.stride);
+            o.w64arr(ikw[i], X.idx.data(), X.idx.size());
+            o.w64arr(akw[i], ad.data(), ad.size());
+            o.w64(ekw[i], X.extent());
+            o.boolean(i == 0 ? "spa" : i == 1 ? "spb" : "spc", X.sparse());
+            continue;
+        }
+        o.num(sk[i], (long long)X.stride);
+        intarr(o, ik[i], X.idx);
         intarr(o, ak[i], ad);
         o.num(ek[i], (long long)X.extent());
     }
     o.w64arr("a", r0.a, L);
     o.w64arr("b", r0.b, row.op == OP_COPY ? 0 : L);
     o.w64arr("r", r0.r, L);
-    o.intarr("chg", chg.data(), chg.size());
+    if (wide)
+    {
+        // changed positions as two's-complement words (a decoy cell below the base pointer has a negative position); a scan
+        // that finds more than 64 changed cells is cut there (the write footprint has at most 8)
+        std::vector<uint64_t> cw(chg.begin(), chg.end());
+        o.w64arr("chgw", cw.data(), std::min<size_t>(cw.size(), 64));
+        o.num("nchg", (long long)cw.size());
+    }
+    else
+        o.intarr("chg", chg.data(), chg.size());
     o.boolean("same", same);
     o.boolean("in_same", r0.in_same && r1.in_same);
     o.boolean("slack_ok", r0.slack_ok && r1.slack_ok);
